@@ -53,9 +53,49 @@ def run(tier, seed, t0):
         jobs.append(Job("debug-spqlios-fma-128", "drv_c02", "debug", "spqlios-fma",
                         ["--seed", seed + 3, "--lambda", 128, "--gates", 250], timeout=1800))
 
+    for lam in (80, 128):
+        for i in range(8 if thorough else 4):
+            jobs.append(Job("keybias-%d-%d" % (lam, i), "drv_c02", "optim", "spqlios-fma",
+                            ["--mode", "keybias", "--seed", seed, "--lambda", lam, "--count", 64 if thorough else 24, "--shard", i], timeout=3600))
+
     def post(results, agg):
         viols = []
         pooled = {}
+        keybias = {}
+        for r in results:
+            perkey = {}
+            for e in r.by_type("stat"):
+                s = e["stat"]
+                if s.get("kind") == "keybias":
+                    # exact expectation of every gate output's phase error under this key (no sampling error): property: <= bound/4
+                    bits = "80" if s["config"].endswith("80bit") else "128"
+                    b = s["expected_output_mean_from_key_switching_rows"]
+                    keybias[r.job.name] = b
+                    if abs(b) > 0.25 * spec[bits]:
+                        viols.append(("noise:per-key-mean-above-quarter-bound:%s" % s["config"],
+                                      {"job": r.job.name, "expected_output_mean": b, "limit": 0.25 * spec[bits],
+                                       "how": "-(1/base) * sum of the noise of all key-switching rows, measured with the secret keys"}, r))
+                if s.get("kind") == "keybias-sweep":
+                    bits = "80" if s["config"].endswith("80bit") else "128"
+                    sweep = keybias.setdefault("sweep:" + s["config"], 0.0)
+                    keybias["sweep:" + s["config"]] = max(sweep, s["max_abs_expected_output_mean"])
+                    over = [b for b in s["per_key"] if abs(b) > 0.25 * spec[bits]]
+                    if over:
+                        viols.append(("noise:per-key-mean-above-quarter-bound:%s" % s["config"],
+                                      {"job": r.job.name, "keys": s["keys"], "keys_over_limit": len(over), "worst": max(over, key=abs), "rms_over_keys": s["rms"],
+                                       "limit": 0.25 * spec[bits]}, r))
+                if s.get("kind") == "noise" and "|BIN|" in s["cell"] and not s["cell"].endswith("zero-mask"):
+                    a = perkey.setdefault(s["cell"].split("|")[0], {"n": 0, "s1": 0.0, "s2": 0.0})
+                    for f in ("n", "s1", "s2"):
+                        a[f] += s[f]
+            for cfg, a in perkey.items():    # empirical per-key mean (one key per job)
+                if a["n"] >= 200:
+                    m = a["s1"] / a["n"]
+                    sd = math.sqrt(max(a["s2"] / a["n"] - m * m, 0))
+                    bits = "80" if cfg.endswith("80bit") else "128"
+                    lim = 0.25 * spec[bits] + 8 * sd / math.sqrt(a["n"])
+                    if abs(m) > lim:
+                        viols.append(("noise:per-key-empirical-mean:%s" % cfg, {"job": r.job.name, "mean": m, "K": a["n"], "limit": lim}, r))
         for r in results:
             for e in r.by_type("stat"):
                 s = e["stat"]
@@ -120,7 +160,7 @@ def run(tier, seed, t0):
                         viols.append(("noise:mean-depends-on-input:%s|%s|%s-vs-%s" % (cfg, grp, ca, cb),
                                       {"class_a": ca, "mean_a": ma, "class_b": cb, "mean_b": mb, "limit": 8 * sem}, ra))
         short = {k: {kk: (round(vv, 6) if isinstance(vv, float) else vv) for kk, vv in v.items()} for k, v in table.items() if "|gate:" not in k}
-        return viols, {"noise_table": short, "independence_comparisons": comparisons,
+        return viols, {"noise_table": short, "independence_comparisons": comparisons, "per_key_expected_mean": {k: round(v, 7) for k, v in keybias.items()},
                        "depth_bound": "chains of depth 200 (in place); unbounded depth is restated as depth <= 200 plus input independence"}
 
     return vcheck.simple_run("C02", tier, seed, t0, jobs, "exploration", RULE,
